@@ -371,10 +371,12 @@ def hist_outcome(fn):
         return ["crash", type(e).__name__]
 
 
-def hist_argv(s):
+def hist_argv(s, load=False):
     a = []
     for k, v in s.items():
-        if k == "opt":
+        if k == "opt" and load:
+            a.append("--opt=" + json.dumps(v))      # the whole group as one value: _ActionConfigLoad -> _apply_actions(parent_key)
+        elif k == "opt":
             a += ["--opt.%s=%s" % (f, x) for f, x in v.items()]
         elif k == "cal":
             if "class_path" in v:
@@ -392,7 +394,11 @@ def hist_channels(s, mode, tmp):
     path = os.path.join(tmp, "hist.json")
     with open(path, "w") as f:
         f.write(js)
+    extra = {}
+    if "opt" in s:
+        extra["argv_load"] = hist_outcome(lambda: hist_parser(mode).parse_args(hist_argv(s, load=True)))
     return {
+        **extra,
         "object": hist_outcome(lambda: hist_parser(mode).parse_object(json.loads(js))),
         "string": hist_outcome(lambda: hist_parser(mode).parse_string(js)),
         "path": hist_outcome(lambda: hist_parser(mode).parse_path(path)),
@@ -523,6 +529,99 @@ def run_sub(case, tmp):
     return {"leaves": out, "envmap": envmap}
 
 
+# ---------------------------------------------------------------------------------------------------------------------
+# options with nargs / choices / a plain callable type
+# ---------------------------------------------------------------------------------------------------------------------
+def pos(x):
+    x = int(x)
+    if x <= 0:
+        raise ValueError("not positive: %r" % (x,))
+    return x
+
+
+def up(x):
+    if not isinstance(x, str):
+        raise TypeError("expected a str")
+    return x.upper()
+
+
+def plain_parser(case, mode, dcf=None):
+    kw = {"prog": "tool.py"} if case["prefix"] is True else {}
+    p = ArgumentParser(exit_on_error=False, env_prefix=case["prefix"], parser_mode=mode, default_config_files=dcf, **kw)
+    p.add_argument("--cfg", action=ActionConfigFile)
+    p.add_argument("--other", type=int, default=3)
+    akw = {}
+    pf = case["pf"]
+    if pf == "pos":
+        akw["type"] = pos
+    elif pf == "up":
+        akw["type"] = up
+    elif pf != "none":
+        akw["type"] = build_type(pf[1])
+    if case["nargs"] is not None:
+        akw["nargs"] = case["nargs"]
+    if case["choices"] is not None:
+        akw["choices"] = [untag(c) for c in case["choices"]]
+    p.add_argument("--" + case["key"], **akw)
+    return p
+
+
+def run_plain(case, tmp):
+    SIBKEY[0] = None
+    dest = case["key"]
+    key = dest.split(".")
+    islist = case["nargs"] in ("*", "+") or isinstance(case["nargs"], int)
+    vals = [untag(v) for v in case["vals"]]
+    val = vals if islist else vals[0]
+    nested = val
+    for k in reversed(key):
+        nested = {k: nested}
+    doc = json.dumps(nested)
+    path = os.path.join(tmp, "plain.json")
+    with open(path, "w") as f:
+        f.write(doc)
+    pre = {True: "tool", False: None}.get(case["prefix"], case["prefix"]) if isinstance(case["prefix"], bool) else case["prefix"]
+    pre = "" if pre is None else pre.replace("-", "_") + "_"
+    envvar = (pre + dest.replace(".", "__")).upper()
+    cfgvar = (pre + "cfg").upper()
+    toks, envtext = case["toks"], case["envtext"]
+    chan, loaded = {}, {}
+    for mode in case["modes"]:
+        m = mode + "/"
+        mk = lambda: plain_parser(case, mode)
+        if not any(t.startswith("-") for t in toks):
+            chan[m + "argv_sp"] = outcome(lambda: mk().parse_args(["--" + dest] + toks), dest)
+        if len(toks) == 1:
+            chan[m + "argv_eq"] = outcome(lambda: mk().parse_args(["--%s=%s" % (dest, toks[0])]), dest)
+        chan[m + "env"] = outcome(lambda: mk().parse_env({envvar: envtext}), dest)
+        os.environ[envvar] = envtext
+        try:
+            chan[m + "env_args"] = outcome(lambda: mk().parse_args([], env=True), dest)
+        finally:
+            del os.environ[envvar]
+        chan[m + "object_nested"] = outcome(lambda: mk().parse_object(json.loads(doc)), dest)
+        if len(key) > 1:
+            chan[m + "object_dotted"] = outcome(lambda: mk().parse_object({dest: json.loads(json.dumps(val))}), dest)
+        name = "json_nested"
+        chan[m + "string:" + name] = outcome(lambda: mk().parse_string(doc), dest)
+        chan[m + "path:" + name] = outcome(lambda: mk().parse_path(path), dest)
+        chan[m + "cfgfile:" + name] = outcome(lambda: mk().parse_args(["--cfg", path]), dest)
+        chan[m + "cfgstr:" + name] = outcome(lambda: mk().parse_args(["--cfg=" + doc]), dest)
+        chan[m + "cfgenv:" + name] = outcome(lambda: mk().parse_env({cfgvar: doc}), dest)
+        chan[m + "default_config:" + name] = outcome(lambda: plain_parser(case, mode, dcf=[path]).parse_args([]), dest)
+        ans = load_answer(ld.loaders[mode], doc)
+        if ans[0] == "val":
+            try:
+                ans = ["val", tag(dig(untag_loaded(ans[1]), key))]
+            except KeyError:
+                ans = ["other", "KeyMissing"]
+        loaded[m + name] = ans
+    strs = list(toks) + [envtext]
+    strings_of(val, strs)
+    oracle, _ = oracles(strs, [])
+    return {"chan": chan, "loaded": loaded, "oracle": oracle, "envvar": envvar}
+
+
 def untag_loaded(t):
     """inverse of tag for what loaders can return (keeps tagged leaves addressable by key)"""
     if isinstance(t, dict):
@@ -553,7 +652,7 @@ def main():
     try:
         for case in payload["cases"]:
             try:
-                fn = {"hist": run_hist, "sub": run_sub}.get(case.get("kind"), run_case)
+                fn = {"hist": run_hist, "sub": run_sub, "plain": run_plain}.get(case.get("kind"), run_case)
                 out.append(contextvars.copy_context().run(fn, case, tmp))
             except Exception as e:
                 out.append({"error": "%s: %s" % (type(e).__name__, e)})
